@@ -608,8 +608,8 @@ class Interp:
 
     def exec_for(self, st: ast.For, fr: Frame):
         it = self._abstract_iter(self.eval(st.iter, fr), st.iter)
-        if st.orelse:
-            raise self.err(st, "for-else not supported")
+        if st.orelse and isinstance(it, Coll) and it.card == "many":
+            raise self.err(st, "for-else over an abstract collection is not supported")
         if isinstance(it, Coll) and it.card == "many":
             # abstract loop: one pass with the generic member; appends become families
             self.assign(st.target, it.members[0], fr)
@@ -649,6 +649,10 @@ class Interp:
                 break
             except _Continue:
                 continue
+        else:
+            # the loop ran to its end without `break`
+            if st.orelse:
+                self.exec_block(st.orelse, fr)
 
     def iterate(self, it, node, fr) -> list:
         if isinstance(it, Coll):
